@@ -11,6 +11,7 @@ import (
 	"fmt"
 	"runtime"
 	"sync"
+	"sync/atomic"
 	"time"
 )
 
@@ -105,6 +106,7 @@ type Execution struct {
 type Sched struct {
 	threads  []*thread // every thread ever created (ids)
 	live     []*thread // threads that have not finished: what the scheduler iterates over
+	progress uint64    // scheduling decisions taken (atomic; read by the watchdog in Run)
 	cur      *thread
 	prefix   []int
 	x        *Execution
@@ -155,9 +157,18 @@ func Run(prefix []int, opts Options, body func()) *Execution {
 	s.cur = t
 	s.startGoroutine(t, body)
 	t.wake <- struct{}{}
-	select {
-	case <-s.finished:
-	case <-time.After(20 * time.Second):
+	last := uint64(0)
+wait:
+	for {
+		select {
+		case <-s.finished:
+			break wait
+		case <-time.After(20 * time.Second):
+		}
+		if now := atomic.LoadUint64(&s.progress); now != last {
+			last = now // still making scheduling decisions (a slow or heavily loaded machine): keep waiting
+			continue
+		}
 		// scheduler bug (baton lost): report the state and fail loudly, never hang
 		msg := "verifsched: baton lost;"
 		for _, th := range s.threads {
@@ -363,6 +374,7 @@ func (s *Sched) pick(running *thread) *thread {
 		return nil
 	}
 	s.x.Steps++
+	atomic.AddUint64(&s.progress, 1)
 	if s.x.Steps > s.opts.MaxSteps || len(s.threads) > maxThreads {
 		s.x.Verdict = "runaway"
 		return nil
